@@ -37,6 +37,36 @@ def dangling(inputs, output):
     return res
 
 
+def ladder_net(rng, quick):
+    """a chain of tensors, neighbours joined by a double (sometimes triple) bond of unequal sizes, most tensors
+    carrying their own output leg: the running intermediate grows while its multi-bond to the rest is what a
+    truncating cap compresses -- the shape on which the neighbourhood bookkeeping of the tracker matters"""
+    n = rng.randint(4, 6 if quick else 8)
+    syms = iter(gen.SYMS)
+    inputs = [[] for _ in range(n)]
+    output, size_dict = [], {}
+    for i in range(n):
+        if rng.random() < 0.85:
+            s_ = next(syms)
+            inputs[i].append(s_)
+            output.append(s_)
+            size_dict[s_] = rng.randint(2, 3)
+        if i < n - 1:
+            for _ in range(3 if rng.random() < 0.2 else 2):
+                s_ = next(syms)
+                inputs[i].append(s_)
+                inputs[i + 1].append(s_)
+                size_dict[s_] = rng.randint(2, 4)
+    for t in inputs:
+        rng.shuffle(t)
+    rng.shuffle(output)
+    # sweep from one end to the other (linear path), sometimes a random path instead
+    path = tuple([(0, 1)] + [(0, m - 1) for m in range(n - 1, 1, -1)])
+    if rng.random() < 0.3:
+        path = gen.rand_path(rng, n)
+    return [tuple(t) for t in inputs], tuple(output), size_dict, path
+
+
 def ordinary_net(rng, quick, connected=False):
     for _ in range(200):
         inputs, output, size_dict = gen.rand_net(rng, nmin=2, nmax=6 if quick else 8, ordinary=True,
@@ -89,6 +119,9 @@ def run_recorded(core, tree, chi, order, late, bonds=None):
         def update_post_step(self):
             super().update_post_step()
             hg = self._hg
+            live = sum(oracle.prod(hg.size_dict[e] for e in es) for es in hg.nodes.values())
+            if self.total_size != live and not hasattr(self, "_bad_total"):
+                self._bad_total = (len(self._trace) + 1, int(self.total_size), int(live))
             self._trace.append((
                 tuple(Z(getattr(self, f)) for f in FIELDS),
                 [(i, [gen.IDX[e] for e in es]) for i, es in hg.nodes.items()],
@@ -105,6 +138,50 @@ def run_recorded(core, tree, chi, order, late, bonds=None):
         core.CompressedStatsTracker = base
         HyperGraph.compress, HyperGraph.neighborhood_compress_cost = orig_compress, orig_ncc
     return tr, tr._trace
+
+
+def check_neighborhood_model(ctx, rng):
+    """HyperGraph.neighborhood_size / node_size / neighbors on hypergraphs after random contract and compress
+    operations, against Model/HGraph.v (the neighbourhood INCLUDES the queried nodes themselves)"""
+    from cotengra.hypergraph import HyperGraph
+    cases, recs = [], []
+    for ci in range(ctx.n(40, 400)):
+        if ci % 4 == 3:
+            inputs, output, size_dict, _ = ladder_net(rng, ctx.quick)
+        else:
+            inputs, output, size_dict, _ = ordinary_net(rng, ctx.quick)
+        hg = HyperGraph(inputs, output, size_dict)
+        term = "(hg_init (inputs {n}) (output {n}) (szd {n}))".format(n=gen.net_lit(inputs, output, size_dict))
+        ops = []
+        for _ in range(rng.randint(0, max(0, len(inputs) - 2))):
+            if rng.random() < 0.6 and len(hg.nodes) > 2:
+                i, j = rng.sample(list(hg.nodes), 2)
+                hg.contract(i, j)
+                term = "(fst (hg_contract %d %d %s))" % (i, j, term)
+                ops.append(("contract", i, j))
+            else:
+                k = rng.choice(list(hg.nodes))
+                chi = rng.choice([1, 2, 4, 16])
+                hg.compress(chi, hg.get_node(k))
+                term = "(let g := %s in hg_compress %s (get_node g %d) g)" % (term, coq(Z(chi)), k)
+                ops.append(("compress", chi, k))
+        queries = [rng.sample(list(hg.nodes), rng.randint(1, min(3, len(hg.nodes)))) for _ in range(4)]
+        want = [(Z(hg.neighborhood_size(q)), [Z(hg.node_size(k)) for k in q]) for q in queries]
+        lhs = "(let g := %s in map (fun q => (neighborhood_size g q, map (hg_node_size g) q)) %s)" % (term, coq(queries))
+        cases.append(("nbhd%d" % ci, lhs, coq(want)))
+        recs.append({"inputs": inputs, "output": output, "size_dict": size_dict, "ops": ops, "queries": queries,
+                     "implementation": [[int(a), [int(x) for x in b]] for a, b in want]})
+        # independent oracle: the neighbourhood of a set of nodes = all nodes sharing an edge with one of them,
+        # the nodes themselves included (when they have any edge)
+        for q, (got, _) in zip(queries, want):
+            nb = {k2 for k in q for e in hg.nodes[k] for k2 in hg.edges[e]}
+            ref = sum(oracle.prod(hg.size_dict[e] for e in hg.nodes[k2]) for k2 in nb)
+            if int(got) != ref:
+                ctx.fail("HyperGraph.neighborhood_size(%r) = %d, but the nodes sharing an edge with them (themselves "
+                         "included) have total size %d" % (q, int(got), ref), recs[-1])
+    for idx, label, val in ctx.coq_cases("c20_neighborhood", ["Compressed"], cases, chunk=40):
+        ctx.fail("HGraph.neighborhood_size / hg_node_size disagree with HyperGraph.neighborhood_size / node_size",
+                 dict(recs[idx], model_value=val), found_input=False)
 
 
 def check_pyset_model(ctx, rng):
@@ -132,6 +209,7 @@ def run(ctx):
     warnings.simplefilter("ignore")
     rng = ctx.rng
     check_pyset_model(ctx, rng)
+    check_neighborhood_model(ctx, rng)
     ntrees = ctx.n(70, 600)
     cases, records = [], []
     sens_terms = []
@@ -178,6 +256,12 @@ def run(ctx):
                     k += 1
                     continue
                 res[(chi, late)] = tr
+                if hasattr(tr, "_bad_total"):
+                    step_, got_, want_ = tr._bad_total
+                    ctx.fail("after step %d of compressed_contract_stats(chi=%r, order=%s, compress_late=%r) the tracker's "
+                             "total_size is %d but the live tensors of the hypergraph add up to %d (the neighbourhood "
+                             "bookkeeping around compress is not exact)" % (step_, chi, oname, late, got_, want_),
+                             dict(rec, chi=chi, compress_late=late))
                 if k in coq_pick:
                     term = "ccs_trace {c} {l} (ccs_init {n}) {o}".format(c=coq(Z(chi)), l=coq(late), n=netl,
                                                                         o=order_lit(trav))
@@ -292,6 +376,10 @@ def run(ctx):
             inputs = [tuple(list(t) + [s]) if i == k else t for i, t in enumerate(inputs)]
             feats = gen.net_features(inputs, output, size_dict)
         path = gen.rand_path(rng, len(inputs))
+        if ti % 6 == 5:
+            inputs, output, size_dict, path = ladder_net(rng, ctx.quick)
+            feats = gen.net_features(inputs, output, size_dict)
+            ctx.count("ladder")
         for f in feats:
             ctx.count(f)
         if dangling(inputs, output):
